@@ -29,8 +29,10 @@ ASSUMPTIONS = [
 class _World:
     def __init__(self):
         self.files = set()
+        self.sizes = {}
         self.log = []
         self.n = 0
+        self.zeros = False
 
 
 W: _World = None  # type: ignore[assignment]
@@ -61,6 +63,20 @@ class FPath:
     def unlink(self):
         W.log.append(("unlink", self.p))
         W.files.discard(self.p)
+
+    def is_file(self):
+        return self.exists()
+
+    def stat(self):
+        # size of the file as it was before the call (symbolic, 0 included: a reserved name)
+        W.log.append(("stat", self.p))
+        if self.p not in W.files:
+            raise FileNotFoundError(self.p)
+
+        class _St:
+            st_size = W.sizes.get(self.p, 0)
+
+        return _St()
 
 
 class _DS:
@@ -168,6 +184,13 @@ class FakePix:
     def __getitem__(self, idx):
         return FakePix(self.shape, self.dtype, self.axes, idx)
 
+    def any(self):
+        # two classes of image content: all zeros, or no zero anywhere (the replay builds exactly these)
+        return Not(W.zeros) if isinstance(W.zeros, symx.Sym) else (not W.zeros)
+
+    def all(self):
+        return self.any()
+
 
 def setup():
     global W
@@ -209,6 +232,8 @@ def h_write_cog(layout, nb, dtype, nodata, levels, dest, windowed=False, front="
     h, w = Int("h", 1, 4096), Int("w", 1, 4096)
     bs = Int("blocksize", 1, 4096)
     exists, overwrite = Bool("exists"), Bool("overwrite")
+    old_size = Int("old_size", 0, 16)
+    zeros = Bool("image_all_zeros")
     nd = {"none": None, "value": NODATA[dtype], "zero": 0}[nodata]
     lv = LEVELS[levels]
     if lv:
@@ -220,18 +245,20 @@ def h_write_cog(layout, nb, dtype, nodata, levels, dest, windowed=False, front="
         # know the dimension order and are checked on those cubes too)
         assume(Not(And(h == nb, w == nb)))
     if conc:
-        return _replay_write_cog(layout, nb, dtype, nd, lv, dest, windowed, front, h, w, bs, exists, overwrite)
+        return _replay_write_cog(layout, nb, dtype, nd, lv, dest, windowed, front, h, w, bs, exists, overwrite, old_size, zeros)
     import odc.geo.cog._rio as rio
     import odc.geo.geobox as gbx
     from affine import Affine
 
     W = _World()
+    W.zeros = zeros
     gb = gbx.GeoBox((h, w), Affine(10.0, 0.0, 1000.0, 0.0, -10.0, 2000.0), "epsg:3857")
     shape, nbands = _mk(layout, nb, h, w)
     pix = FakePix(shape, dtype)
     fname = ":mem:" if dest == "mem" else "/out/a.tif"
     if dest == "file" and exists:
         W.files.add(fname)
+        W.sizes[fname] = old_size
     before = set(W.files)
     kw = dict(blocksize=bs, overview_levels=lv, use_windowed_writes=windowed)
     raised = None
@@ -302,7 +329,7 @@ def h_write_cog(layout, nb, dtype, nodata, levels, dest, windowed=False, front="
         prove("exactly_the_requested_overview_levels", len(builds) == 1 and builds[0][2] == lv)
     if builds:
         prove("overviews_built_on_the_written_image_then_copied_once", n_copy == 1 and builds[0][1] == where and copies[0][1] == where and copies[0][3].get("copy_src_overviews") is True)
-        prove("overviews_built_after_the_pixels_were_written", max(i for i, e in enumerate(log) if e[0] == "write") < log.index(builds[0]) < log.index(copies[0]))
+        prove("overviews_built_after_the_pixels_were_written", max([i for i, e in enumerate(log) if e[0] == "write"], default=-1) < log.index(builds[0]) < log.index(copies[0]))
         copts = copies[0][3]
         prove("copy_goes_to_the_destination", copies[0][2] == fname if dest == "file" and front != "to_cog" else copies[0][2].startswith("/vsimem/"))
     else:
@@ -321,9 +348,13 @@ def h_write_cog(layout, nb, dtype, nodata, levels, dest, windowed=False, front="
     want_axes = {"2d": (0, 1), "first": (0, 1, 2), "last": (2, 0, 1)}[layout]
     want_band = 1 if layout == "2d" else tuple(range(1, nbands + 1))
     if not windowed:
-        prove("pixels_written_once", len(writes) == 1)
+        prove("pixels_written_once", len(writes) == 1 or (len(writes) == 0 and bool(And(zeros, nd is None or nd == 0))))
     else:
-        prove("every_block_window_written", len(writes) == 2 and [e[4].k for e in writes] == [0, 1])
+        # a block window may be left out only where a reader cannot tell: the block holds zeros
+        # only and unwritten blocks read as zero (no nodata value, or nodata 0)
+        skippable = And(zeros, nd is None or nd == 0)
+        ks = [e[4].k for e in writes]
+        prove("every_block_window_written", ks == [0, 1] or (bool(skippable) and ks in ([], [0], [1])))
     for e in writes:
         _, wh, p, idx, win = e
         prove("pixels_go_to_the_created_dataset", wh == where)
@@ -335,7 +366,7 @@ def h_write_cog(layout, nb, dtype, nodata, levels, dest, windowed=False, front="
             prove("whole_image_written", p.sel is None)
 
 
-def _replay_write_cog(layout, nb, dtype, nd, lv, dest, windowed, front, h, w, bs, exists, overwrite):
+def _replay_write_cog(layout, nb, dtype, nd, lv, dest, windowed, front, h, w, bs, exists, overwrite, old_size=11, zeros=False):
     """the same request against the real rasterio/GDAL in a temp directory, read back with rasterio"""
     import os
     import tempfile
@@ -354,12 +385,15 @@ def _replay_write_cog(layout, nb, dtype, nd, lv, dest, windowed, front, h, w, bs
     for s in shape:
         n *= s
     pix = (np.arange(n).reshape(shape) % 200 + 1).astype(dtype)
+    if zeros:
+        pix[...] = 0
+    old = b"o" * int(old_size)
     kw = dict(blocksize=bs, overview_levels=lv, use_windowed_writes=windowed)
     with tempfile.TemporaryDirectory() as td:
         fname = ":mem:" if dest == "mem" else os.path.join(td, "a.tif")
         if dest == "file" and exists:
             with open(fname, "wb") as f:
-                f.write(b"old content")
+                f.write(old)
         raised = None
         out = None
         try:
@@ -380,7 +414,7 @@ def _replay_write_cog(layout, nb, dtype, nd, lv, dest, windowed, front, h, w, bs
         except IOError as e:
             raised = e
         if dest == "file" and front != "to_cog" and exists and not overwrite:
-            ok = raised is not None and open(fname, "rb").read() == b"old content"
+            ok = raised is not None and os.path.exists(fname) and open(fname, "rb").read() == old
             prove("existing_destination_without_overwrite_is_left_untouched_with_an_error", ok)
             return
         prove("no_error", raised is None)
@@ -417,9 +451,10 @@ def h_layers(nlayers, dest, nodata):
     bs = Int("blocksize", 1, 4096)
     obs = Int("ovr_blocksize", 1, 4096)
     exists, overwrite = Bool("exists"), Bool("overwrite")
+    old_size = Int("old_size", 0, 16)
     nd = {"none": None, "attr": -9999, "zero_extra": 0, "zero_attr": 0}[nodata]
     if conc:
-        return _replay_layers(nlayers, dest, nodata, nd, h, w, bs, obs, exists, overwrite)
+        return _replay_layers(nlayers, dest, nodata, nd, h, w, bs, obs, exists, overwrite, old_size)
     import odc.geo.cog._rio as rio
     import odc.geo.geobox as gbx
     from affine import Affine
@@ -446,6 +481,7 @@ def h_layers(nlayers, dest, nodata):
     fname = ":mem:" if dest == "mem" else "/out/a.tif"
     if dest == "file" and exists:
         W.files.add(fname)
+        W.sizes[fname] = old_size
     before = set(W.files)
     extra = {"nodata": 0} if nodata == "zero_extra" else {}
     raised = None
@@ -496,7 +532,7 @@ def h_layers(nlayers, dest, nodata):
     prove("overview_block_size_requested", len(envs) == 1 and envs[0][1]["GDAL_TIFF_OVR_BLOCKSIZE"] is obs and log.index(envs[0]) < log.index(copies[0]))
 
 
-def _replay_layers(nlayers, dest, nodata, nd, h, w, bs, obs, exists, overwrite):
+def _replay_layers(nlayers, dest, nodata, nd, h, w, bs, obs, exists, overwrite, old_size=11):
     import os
     import tempfile
 
@@ -518,9 +554,10 @@ def _replay_layers(nlayers, dest, nodata, nd, h, w, bs, obs, exists, overwrite):
     extra = {"nodata": 0} if nodata == "zero_extra" else {}
     with tempfile.TemporaryDirectory() as td:
         fname = ":mem:" if dest == "mem" else os.path.join(td, "a.tif")
+        old = b"o" * int(old_size)
         if dest == "file" and exists:
             with open(fname, "wb") as f:
-                f.write(b"old content")
+                f.write(old)
         raised = None
         out = None
         try:
@@ -528,7 +565,7 @@ def _replay_layers(nlayers, dest, nodata, nd, h, w, bs, obs, exists, overwrite):
         except IOError as e:
             raised = e
         if dest == "file" and exists and not overwrite:
-            prove("existing_destination_without_overwrite_is_left_untouched_with_an_error", raised is not None and open(fname, "rb").read() == b"old content")
+            prove("existing_destination_without_overwrite_is_left_untouched_with_an_error", raised is not None and os.path.exists(fname) and open(fname, "rb").read() == old)
             return
         prove("no_error", raised is None)
         if raised is not None:
@@ -620,6 +657,9 @@ def _params(tier, rng):
             out.append(dict(layout=layout, nb=nb, dtype=dt, nodata=("none", "value", "zero")[i % 3], levels=("default", "none", "two", "odd", "five")[i % 5], dest=dest,
                             windowed=(i % 4 == 3), front=front))
             i += 1
+    # windowed writes with a nodata value other than zero (an unwritten block reads back as nodata)
+    out.append(dict(layout="2d", nb=1, dtype="int16", nodata="value", levels="none", dest="mem", windowed=True, front="_write_cog"))
+    out.append(dict(layout="last", nb=3, dtype="uint8", nodata="value", levels="two", dest="file", windowed=True, front="write_cog"))
     if tier == "thorough":
         for layout, nb in (("2d", 1), ("first", 2), ("last", 3)):
             for lv in LEVELS:
@@ -637,11 +677,11 @@ OBLIGATIONS = [
     Ob("Z1_Z3_write_cog", h_write_cog, _params,
        descr="what GDAL is asked to create (size, bands, dtype, CRS, transform, nodata incl. 0), band-first pixel hand-over in band order, tiling with block sizes per the multiple-of-16 rule, exactly the requested overview levels (defaults by image size) copied with copy_src_overviews, overwrite guard, in-memory output",
        functions=("odc.geo.cog._rio._write_cog", "odc.geo.cog._rio.write_cog", "odc.geo.cog._rio.to_cog", "odc.geo.cog._rio.check_write_path", "odc.geo.cog._rio._default_cog_opts", "odc.geo.cog._shared.adjust_blocksize"),
-       bounds="height, width, block size in 1..4096 symbolic; destination exists / overwrite symbolic; band layout, band count, dtype, nodata mode, overview request, front end from the parameter grid", stubs=STUBS, **COMMON),
+       bounds="height, width, block size in 1..4096 symbolic; destination exists / overwrite and the size of the existing file (0..16 bytes) symbolic; image content in two classes (all zeros / no zero) symbolic; band layout, band count, dtype, nodata mode, overview request, front end from the parameter grid", stubs=STUBS, **COMMON),
     Ob("Z5_layers", h_layers, fixed(*[dict(nlayers=n, dest=d, nodata=m) for n, d, m in ((1, "mem", "none"), (2, "file", "attr"), (3, "mem", "zero_extra"), (3, "file", "none"), (2, "mem", "zero_attr"))]),
        descr="externally supplied overviews: layers go to side-car names <name>, <name>.ovr, <name>.ovr.ovr in order with no overviews computed, one copy with copy_src_overviews from the full-resolution side-car to the destination, block sizes per the rule, nodata (zero included), overview block size, overwrite guard",
        functions=("odc.geo.cog._rio.write_cog_layers", "odc.geo.cog._rio._memfiles_ovr", "odc.geo.cog._rio._write_cog", "odc.geo.cog._rio.check_write_path"),
-       bounds="height, width, block sizes symbolic; 1..3 layers; destination exists / overwrite symbolic", stubs=STUBS, **COMMON),
+       bounds="height, width, block sizes symbolic; 1..3 layers; destination exists / overwrite and the size of the existing file symbolic", stubs=STUBS, **COMMON),
     Ob("Z4_front_layers", h_front_layers, fixed(dict(dest="file"), dict(dest="mem")), descr="write_cog / to_cog with overviews=: image first then the overviews in order, destination and every option handed to the layered writer",
        functions=("odc.geo.cog._rio.write_cog", "odc.geo.cog._rio.to_cog"), stubs=("write_cog_layers recorded",), **COMMON),
 ]
